@@ -14,9 +14,12 @@ import (
 	"golang.org/x/tools/go/ssa"
 )
 
-type abort struct{ why string }       // path cannot be continued by the engine (unsupported construct)
-type outOfBound struct{ why string }  // a stated bound (recursion, steps, union width) was hit
-type goPanic struct{ msg string }     // the program under test panics
+type abort struct{ why string }      // path cannot be continued by the engine (unsupported construct)
+type outOfBound struct{ why string } // a stated bound (recursion, steps, union width) was hit
+type goPanic struct {                // the program under test panics
+	msg   string
+	stack []*ssa.Function // call stack at the point of the panic (filled when the stack is unwound)
+}
 type frozenWrite struct{ msg string } // write into an object frozen by the harness
 type pathEnd struct{}                 // assume(false), or end after a fatal assertion
 
@@ -429,7 +432,7 @@ func (e *Engine) eqVal(a, b Value) Value {
 			return false
 		}
 		if !types.Comparable(x.T) {
-			panic(goPanic{"runtime error: comparing uncomparable type " + x.T.String()})
+			panic(goPanic{msg: "runtime error: comparing uncomparable type " + x.T.String()})
 		}
 		return e.eqVal(x.V, y.V)
 	case *MapV:
@@ -466,7 +469,7 @@ func (e *Engine) call(fnv Value, args []Value) Value {
 		return e.callFn(f, args, nil)
 	case *Closure:
 		if f == nil {
-			panic(goPanic{"call of nil func"})
+			panic(goPanic{msg: "call of nil func"})
 		}
 		if f.Native != nil {
 			return f.Native(e, args)
@@ -517,6 +520,9 @@ func (e *Engine) runWithRecover(fr *frame) (res Value) {
 			gp, ok := r.(goPanic)
 			if !ok {
 				panic(r)
+			}
+			if gp.stack == nil {
+				gp.stack = append([]*ssa.Function{}, e.stack...)
 			}
 			e.stack = e.stack[:stackLen]
 			// run deferred calls with the panic value available to recover()
@@ -585,7 +591,7 @@ func (e *Engine) run(fr *frame, blk *ssa.BasicBlock) Value {
 					d()
 				}
 			case *ssa.Panic:
-				panic(goPanic{"explicit panic: " + e.panicText(e.get(fr, in.X))})
+				panic(goPanic{msg: "explicit panic: " + e.panicText(e.get(fr, in.X))})
 			case *ssa.Store:
 				p, ok := e.get(fr, in.Addr).(Pointer)
 				if !ok {
@@ -654,7 +660,7 @@ func (e *Engine) prepareCall(fr *frame, c *ssa.CallCommon) (Value, []Value) {
 			panic(abort{"invoke on non-interface value"})
 		}
 		if recv.T == nil {
-			panic(goPanic{"nil pointer dereference"})
+			panic(goPanic{msg: "nil pointer dereference"})
 		}
 		if ev, ok := recv.V.(*ErrV); ok {
 			switch c.Method.Name() {
@@ -871,7 +877,7 @@ func (e *Engine) eval(fr *frame, v ssa.Value) Value {
 			panic(abort{"FieldAddr on non-pointer"})
 		}
 		if p.O == nil {
-			panic(goPanic{"nil pointer dereference"})
+			panic(goPanic{msg: "nil pointer dereference"})
 		}
 		return Pointer{O: p.O, Path: append(append(make([]int, 0, len(p.Path)+1), p.Path...), in.Field)}
 	case *ssa.Field:
@@ -881,16 +887,16 @@ func (e *Engine) eval(fr *frame, v ssa.Value) Value {
 		switch x := e.get(fr, in.X).(type) {
 		case Slice:
 			if idx < 0 || idx >= x.Len {
-				panic(goPanic{fmt.Sprintf("index out of range [%d] with length %d", idx, x.Len)})
+				panic(goPanic{msg: fmt.Sprintf("index out of range [%d] with length %d", idx, x.Len)})
 			}
 			return Pointer{O: x.O, Path: []int{x.Off + idx}}
 		case Pointer: // *array
 			if x.O == nil {
-				panic(goPanic{"nil pointer dereference"})
+				panic(goPanic{msg: "nil pointer dereference"})
 			}
 			n := len(navigate(x.O.Val, x.Path).(*Agg).F)
 			if idx < 0 || idx >= n {
-				panic(goPanic{fmt.Sprintf("index out of range [%d] with length %d", idx, n)})
+				panic(goPanic{msg: fmt.Sprintf("index out of range [%d] with length %d", idx, n)})
 			}
 			return Pointer{O: x.O, Path: append(append([]int{}, x.Path...), idx)}
 		}
@@ -900,18 +906,18 @@ func (e *Engine) eval(fr *frame, v ssa.Value) Value {
 		switch x := e.get(fr, in.X).(type) {
 		case *Agg:
 			if idx < 0 || idx >= len(x.F) {
-				panic(goPanic{fmt.Sprintf("index out of range [%d] with length %d", idx, len(x.F))})
+				panic(goPanic{msg: fmt.Sprintf("index out of range [%d] with length %d", idx, len(x.F))})
 			}
 			return copyVal(x.F[idx])
 		case string:
 			if idx < 0 || idx >= len(x) {
-				panic(goPanic{fmt.Sprintf("index out of range [%d] with length %d", idx, len(x))})
+				panic(goPanic{msg: fmt.Sprintf("index out of range [%d] with length %d", idx, len(x))})
 			}
 			return int64(x[idx])
 		case *UStr:
 			s := e.concretizeStr(x)
 			if idx < 0 || idx >= len(s) {
-				panic(goPanic{fmt.Sprintf("index out of range [%d] with length %d", idx, len(s))})
+				panic(goPanic{msg: fmt.Sprintf("index out of range [%d] with length %d", idx, len(s))})
 			}
 			return int64(s[idx])
 		}
@@ -929,7 +935,7 @@ func (e *Engine) eval(fr *frame, v ssa.Value) Value {
 		s := e.concreteStr(x)
 		idx := e.concreteInt(e.get(fr, in.Index))
 		if idx < 0 || idx >= len(s) {
-			panic(goPanic{fmt.Sprintf("index out of range [%d] with length %d", idx, len(s))})
+			panic(goPanic{msg: fmt.Sprintf("index out of range [%d] with length %d", idx, len(s))})
 		}
 		return int64(s[idx])
 	case *ssa.MakeMap:
@@ -939,10 +945,10 @@ func (e *Engine) eval(fr *frame, v ssa.Value) Value {
 		n := e.concreteInt(e.get(fr, in.Len))
 		c := e.concreteInt(e.get(fr, in.Cap))
 		if n < 0 {
-			panic(goPanic{"makeslice: len out of range"})
+			panic(goPanic{msg: "makeslice: len out of range"})
 		}
 		if c < n {
-			panic(goPanic{"makeslice: cap out of range"})
+			panic(goPanic{msg: "makeslice: cap out of range"})
 		}
 		return e.makeSlice(in.Type().Underlying().(*types.Slice).Elem(), n, c, "makeslice@"+fr.fn.Name())
 	case *ssa.Slice:
@@ -1088,7 +1094,7 @@ func (e *Engine) sliceOp(fr *frame, in *ssa.Slice) Value {
 		hi := geti(in.High, x.Len)
 		mx := geti(in.Max, x.Cap)
 		if lo < 0 || hi < lo || hi > x.Cap || mx > x.Cap || mx < hi {
-			panic(goPanic{fmt.Sprintf("slice bounds out of range [%d:%d] with capacity %d", lo, hi, x.Cap)})
+			panic(goPanic{msg: fmt.Sprintf("slice bounds out of range [%d:%d] with capacity %d", lo, hi, x.Cap)})
 		}
 		if x.O == nil {
 			return Slice{}
@@ -1099,12 +1105,12 @@ func (e *Engine) sliceOp(fr *frame, in *ssa.Slice) Value {
 		lo := geti(in.Low, 0)
 		hi := geti(in.High, len(s))
 		if lo < 0 || hi < lo || hi > len(s) {
-			panic(goPanic{fmt.Sprintf("slice bounds out of range [%d:%d] with length %d", lo, hi, len(s))})
+			panic(goPanic{msg: fmt.Sprintf("slice bounds out of range [%d:%d] with length %d", lo, hi, len(s))})
 		}
 		return s[lo:hi]
 	case Pointer: // *array
 		if x.O == nil {
-			panic(goPanic{"nil pointer dereference"})
+			panic(goPanic{msg: "nil pointer dereference"})
 		}
 		arr := navigate(x.O.Val, x.Path).(*Agg)
 		if len(x.Path) != 0 {
@@ -1113,7 +1119,7 @@ func (e *Engine) sliceOp(fr *frame, in *ssa.Slice) Value {
 		lo := geti(in.Low, 0)
 		hi := geti(in.High, len(arr.F))
 		if lo < 0 || hi < lo || hi > len(arr.F) {
-			panic(goPanic{fmt.Sprintf("slice bounds out of range [%d:%d] with capacity %d", lo, hi, len(arr.F))})
+			panic(goPanic{msg: fmt.Sprintf("slice bounds out of range [%d:%d] with capacity %d", lo, hi, len(arr.F))})
 		}
 		return Slice{O: x.O, Off: lo, Len: hi - lo, Cap: len(arr.F) - lo}
 	}
@@ -1179,7 +1185,7 @@ func (e *Engine) intBinop(op token.Token, x, y Value, ii intInfo, yt types.Type)
 			return normInt(a*b, ii)
 		case token.QUO:
 			if b == 0 {
-				panic(goPanic{"integer divide by zero"})
+				panic(goPanic{msg: "integer divide by zero"})
 			}
 			if ii.unsigned && ii.bits == 64 {
 				return int64(uint64(a) / uint64(b))
@@ -1187,7 +1193,7 @@ func (e *Engine) intBinop(op token.Token, x, y Value, ii intInfo, yt types.Type)
 			return normInt(a/b, ii)
 		case token.REM:
 			if b == 0 {
-				panic(goPanic{"integer divide by zero"})
+				panic(goPanic{msg: "integer divide by zero"})
 			}
 			if ii.unsigned && ii.bits == 64 {
 				return int64(uint64(a) % uint64(b))
@@ -1223,7 +1229,7 @@ func (e *Engine) intBinop(op token.Token, x, y Value, ii intInfo, yt types.Type)
 			return normInt(a&^b, ii)
 		case token.SHL:
 			if yi, _ := intInfoOf(yt); !yi.unsigned && b < 0 {
-				panic(goPanic{"negative shift amount"})
+				panic(goPanic{msg: "negative shift amount"})
 			}
 			if uint64(b) >= 64 {
 				return int64(0)
@@ -1231,7 +1237,7 @@ func (e *Engine) intBinop(op token.Token, x, y Value, ii intInfo, yt types.Type)
 			return normInt(a<<uint(b), ii)
 		case token.SHR:
 			if yi, _ := intInfoOf(yt); !yi.unsigned && b < 0 {
-				panic(goPanic{"negative shift amount"})
+				panic(goPanic{msg: "negative shift amount"})
 			}
 			if ii.unsigned {
 				if uint64(b) >= 64 {
@@ -1276,7 +1282,7 @@ func (e *Engine) intBinop(op token.Token, x, y Value, ii intInfo, yt types.Type)
 		return tBin("bvxor", ta, tb, bs)
 	case token.QUO, token.REM:
 		if e.branch(boolVal(tEq(tb, tBV(0, ii.bits)))) {
-			panic(goPanic{"integer divide by zero"})
+			panic(goPanic{msg: "integer divide by zero"})
 		}
 		if op == token.QUO {
 			return tBin(sel("bvsdiv", "bvudiv"), ta, tb, bs)
@@ -1516,7 +1522,7 @@ func (e *Engine) typeAssert(in *ssa.TypeAssert, x Iface) Value {
 			if x.T != nil {
 				got = x.T.String()
 			}
-			panic(goPanic{"interface conversion: interface is " + got + ", not " + in.AssertedType.String()})
+			panic(goPanic{msg: "interface conversion: interface is " + got + ", not " + in.AssertedType.String()})
 		}
 		res = zero(in.AssertedType)
 	}
@@ -1567,7 +1573,7 @@ func (e *Engine) mapLookup(m *MapV, key Value, elem types.Type) (Value, Value) {
 // mapKey: interface keys holding uncomparable dynamic types panic at run time.
 func (e *Engine) mapKey(key Value) Value {
 	if it, ok := key.(Iface); ok && it.T != nil && !types.Comparable(it.T) {
-		panic(goPanic{"runtime error: hash of unhashable type " + it.T.String()})
+		panic(goPanic{msg: "runtime error: hash of unhashable type " + it.T.String()})
 	}
 	return key
 }
@@ -1575,7 +1581,7 @@ func (e *Engine) mapKey(key Value) Value {
 func (e *Engine) mapUpdate(mv Value, key, val Value) {
 	m, _ := mv.(*MapV)
 	if m == nil {
-		panic(goPanic{"assignment to entry in nil map"})
+		panic(goPanic{msg: "assignment to entry in nil map"})
 	}
 	if m.Frozen {
 		panic(frozenWrite{"map update on frozen map (" + m.Tag + ")"})
@@ -1772,7 +1778,7 @@ func (e *Engine) builtin(fr *frame, b *ssa.Builtin, call *ssa.Call, args []Value
 		return nil
 	case "ssa:wrapnilchk":
 		if p, ok := args[0].(Pointer); ok && p.O == nil {
-			panic(goPanic{"value method " + e.concreteStr(args[1]) + "." + e.concreteStr(args[2]) + " called using nil pointer"})
+			panic(goPanic{msg: "value method " + e.concreteStr(args[1]) + "." + e.concreteStr(args[2]) + " called using nil pointer"})
 		}
 		return args[0]
 	}
